@@ -1,7 +1,7 @@
 (* C20 correspondence, extension: cases for the FastStr model (ModelFast.v), the word-boundary helpers and the
    LineProcessor configurations (ModelText.v).  The old cases are embedded by a coercion.  Definitions only. *)
 From ZV.Common Require Import Base Run.
-From ZV.C20 Require Import Model ModelStr ModelFast ModelText ModelUtf8 ModelStream Cases.
+From ZV.C20 Require Import Model ModelStr ModelFast ModelText ModelUtf8 ModelStream ModelSearch ModelZo ModelSsv Cases.
 Open Scope N_scope.
 
 Definition eqb_on (a b : option N) : bool :=
@@ -68,6 +68,24 @@ Fixpoint eqb_lsobs (a b : list (N * option (list N) * bool)) : bool :=
   | _, _ => false
   end.
 
+Definition res_code (r : bs_result) : bool * N :=
+  match r with Found i => (true, N.of_nat i) | NotFound i => (false, N.of_nat i) end.
+Definition eqb_res (a b : bool * N) : bool := Bool.eqb (fst a) (fst b) && (snd a =? snd b).
+Fixpoint eqb_lres (a b : list (bool * N)) : bool :=
+  match a, b with
+  | [], [] => true
+  | x :: a', y :: b' => eqb_res x y && eqb_lres a' b'
+  | _, _ => false
+  end.
+Fixpoint eqb_lobl (a b : list (option (list N))) : bool :=
+  match a, b with
+  | [], [] => true
+  | x :: a', y :: b' => eqb_obl x y && eqb_lobl a' b'
+  | _, _ => false
+  end.
+Fixpoint pairs_of {A} (l : list A) : list (A * A) :=
+  match l with a :: ((b :: _) as t) => (a, b) :: pairs_of t | _ => [] end.
+
 Inductive xcase :=
 | XOld (c : case)
 (* FastStr on the pair (a, b): find(b) / find_byte(b[0]) / find_byte_optimized(b[0]) in a; compare, ==,
@@ -87,7 +105,16 @@ Inductive xcase :=
 | XByteCount (l : list N)
 (* StreamingLexIterator over the text: ops 0 next, 1 prev, 2 seek_start, 3 seek_end, 4 seek_lower_bound; after each
    the answer (0 false, 1 true, 2 Err), current(), is_at_end() *)
-| XStream (s : list N) (ops : list N) (obs : list (N * option (list N) * bool)).
+| XStream (s : list N) (ops : list N) (obs : list (N * option (list N) * bool))
+(* SortableStrVec::binary_search with cache_block_size bs on the vector whose sorted enumeration is l: per probe
+   (found, index) *)
+| XSearch (l : list (list N)) (bs : N) (probes : list (list N)) (res : list (bool * N))
+(* ZoSortedStrVec::from_sorted_strings(ss): accepted?; get(0 .. len+1); iter(); binary_search per probe; range(lo, hi)
+   for consecutive probes *)
+| XZo (ss : list (list N)) (accepted : bool) (gets : list (option (list N))) (iter : list (list N))
+      (probes : list (list N)) (res : list (bool * N)) (ranges : list (list (list N)))
+(* SortableStrVec::new, push_str / push of every string (accepted = all Ok with ids 0, 1, ...), then get(0 .. len+1) *)
+| XPush (ss : list (list N)) (accepted : bool) (gets : list (option (list N))).
 Coercion XOld : case >-> xcase.
 
 Definition xcase_ok (c : xcase) : bool :=
@@ -120,4 +147,28 @@ Definition xcase_ok (c : xcase) : bool :=
       end
   | XByteCount l => eqb_ln (map (fun i => N.of_nat (utf8_byte_count (N.of_nat i))) (seq 0 256)) l
   | XStream s ops obs => eqb_lsobs (sl_run (sl_new s) ops) obs
+  | XSearch l bs probes res =>
+      if (N.to_nat bs * 2 <? length l)%nat
+      then eqb_lres (map (fun t => res_code (ssv_binary_search l t (N.to_nat bs))) probes) res
+      else (* small path = std binary_search_by: among equal strings any index may be returned *)
+        (length probes =? length res)%nat &&
+        forallb (fun tr => let '(t, r) := tr in
+                   match fst r, ssv_binary_search l t (N.to_nat bs) with
+                   | true, Found _ => (snd r <? nlen l) && eqb_ln (nth_str l (N.to_nat (snd r))) t
+                   | false, NotFound k => snd r =? N.of_nat k
+                   | _, _ => false
+                   end) (combine probes res)
+  | XZo ss accepted gets iter probes res ranges =>
+      match zo_from_sorted ss with
+      | None => negb accepted
+      | Some z =>
+          accepted && eqb_lobl (map (zo_get z) (seq 0 (length ss + 2))) gets && eqb_lln (zo_iter z) iter &&
+          eqb_lres (map (fun t => res_code (zo_binary_search z t)) probes) res &&
+          eqb_llln (map (fun p => zo_range z (fst p) (snd p)) (pairs_of probes)) ranges
+      end
+  | XPush ss accepted gets =>
+      match ssv_push_all ssv_new ss with
+      | None => negb accepted
+      | Some v => accepted && eqb_lobl (map (fun i => ssv_get v (N.of_nat i)) (seq 0 (length ss + 2))) gets
+      end
   end.
